@@ -43,7 +43,7 @@ check("C08", "exploration",
 # properties deliberately not claimed (reason); anything else missing from CHECKS is listed as "not built yet"
 NOT_APPLICABLE = {}
 
-HOOK_COMMITS = ["45bc492", "e36cf10"]
+HOOK_COMMITS = ["45bc492", "e36cf10", "3319613", "69852e4", "ce43167"]
 
 check("C14", "model_checking",
       "CircularBuf: BFS to closure over {write,take,close} histories for every capacity<=6 units x write size 1..3 x read size, "
@@ -141,3 +141,21 @@ check("C18", "model_checking",
            "reference lifecycle model: forward-only states, invalid requests answered with an error and leaving the state "
            "unchanged, failed creation leaving no trace, results handed out once, min-over-shards status, no panic.",
       note="Depth 9 (quick) / 12 (thorough); one query id (QueryId is a unit type); 2 shards.")
+
+check("C09", "exploration",
+      "every byte string of the advertised size for the value types of <= 3 bytes (Fp31, Boolean, Gf2/3/8/9/20Bit, BA3..BA8, BA16, "
+      "BA20, two-byte shares): accepted => re-encodes to itself, #accepted = #values; slot-wise canonical/non-canonical faults "
+      "(single slots and pairs) for the large scalars, shares, StdArray widths, proof/diff arrays, PRF report, seeds, hashes, tags, "
+      "Ristretto points (2^17 byte windows); every supported transpose shape on all one-hot inputs per share (boundary cross for "
+      "256-wide shapes in quick). distinct_nontrivial = distinct byte strings / fault placements / one-hot matrices executed.",
+      [{"name": "encodings", "config": "A", "test": "verif::c09::run",
+        "require": {"any": {"distinct:exhaustive_types": 15, "distinct:transposes": 20}}}],
+      assumptions=[
+                   "transposes are linear over GF(2): one-hot inputs form a basis (non-linear corruption would need a two-hot input)"],
+      exhaustive=True, engine="E5 domain",
+      technique="exhaustive enumeration of all byte strings of small encodings and of one-hot bases of every transpose shape; "
+                "slot-wise single/double fault enumeration for composite encodings",
+      text="Decoders are run on the complete byte-string space of every small type and on every canonical/non-canonical slot "
+           "placement of composite types; a decoder may accept a string only if re-encoding the value reproduces it, and the number "
+           "of accepted strings must equal the number of values. Every transpose implementation is checked bit-for-bit on a basis.",
+      note="Types above 3 bytes are not enumerable; their non-canonical regions are probed at the boundaries only.")
